@@ -49,11 +49,12 @@ type ArgRef struct {
 }
 
 type Action struct {
-	Kind int
-	Args []ArgRef
-	Ctx  bool
-	Pass int
-	Raw  string
+	Kind  int
+	Args  []ArgRef
+	Ctx   bool
+	Pass  int
+	Raw   string
+	Label int // ActCall: if non-zero, the number passed to act.N instead of the alternative's own (lets two actions differ in nothing but a constant)
 }
 
 type Alt struct {
@@ -114,6 +115,9 @@ func T(i int) ArgRef           { return ArgRef{Index: i, AsToken: true} }
 func Call(args ...ArgRef) Action    { return Action{Kind: ActCall, Args: args} }
 func CallCtx(args ...ArgRef) Action { return Action{Kind: ActCall, Args: args, Ctx: true} }
 func Pass(i int) Action             { return Action{Kind: ActPass, Pass: i} }
+func Labelled(l int, args ...ArgRef) Action {
+	return Action{Kind: ActCall, Args: args, Label: l}
+}
 
 // Finish numbers alternatives and precomputes minimum heights.
 func (g *Grammar) Finish() *Grammar {
@@ -307,7 +311,7 @@ func (a *Alt) actionText() string {
 		if a.Action.Ctx {
 			args = append(args, "$Context")
 		}
-		args = append(args, strconv.Itoa(a.ID))
+		args = append(args, strconv.Itoa(a.Label()))
 		for _, r := range a.Action.Args {
 			switch {
 			case r.Const != "":
@@ -325,6 +329,14 @@ func (a *Alt) actionText() string {
 		return "<< " + fn + "(" + strings.Join(args, ", ") + ") >>"
 	}
 	return ""
+}
+
+// Label is the number the alternative's act.N call carries.
+func (a *Alt) Label() int {
+	if a.Action.Label != 0 {
+		return a.Action.Label
+	}
+	return a.ID
 }
 
 // NumAttr is the number of attributes the reduce function receives.
